@@ -151,6 +151,8 @@ class FileScanHelper:
             if not self.__continue_on_error:
                 raise
             self.__handle_scan_error(next_file, this_exception, allow_shortcut=True)
+        except UnicodeDecodeError as this_exception:
+            self.__handle_scan_error(next_file, this_exception, allow_shortcut=True)
         return False
 
     def __scan_file(
@@ -238,6 +240,8 @@ class FileScanHelper:
         except BadTokenizationError as this_exception:
             if not self.__continue_on_error:
                 raise
+            self.__handle_scan_error(next_file, this_exception, allow_shortcut=True)
+        except UnicodeDecodeError as this_exception:
             self.__handle_scan_error(next_file, this_exception, allow_shortcut=True)
         return did_fix_file, did_succeed
 
